@@ -119,6 +119,20 @@ def bubbles(rep, D, tag):
         eq(rep, 'bubble.dagger.involutive', lambda: b[::-1][::-1], lambda: b, inp)
 
 
+def catalogue_daggers(rep):
+    """dagger is involutive, identity-on-objects and reverses composition on one instance of every box class of the
+    library with every combination of its type-changing flags (semantic subclasses included)"""
+    from rtc.drivers.C01 import box_catalogue
+    for b in box_catalogue():
+        inp = '%s.%s %r' % (type(b).__module__, type(b).__name__, b)
+        rep.case(('catalogue', inp))
+        eq(rep, 'dagger.involutive.box', lambda: b[::-1][::-1], lambda: b, inp)
+        eq(rep, 'dagger.on_objects.dom', lambda: b[::-1].dom, lambda: b.cod, inp)
+        eq(rep, 'dagger.on_objects.cod', lambda: b[::-1].cod, lambda: b.dom, inp)
+        if len(getattr(b, 'terms', [])) < 2:        # composites of multi-term sums: order of terms, known finding F2
+            eq(rep, 'dagger.contravariant.box', lambda: (b >> b[::-1])[::-1], lambda: b[::-1][::-1] >> b[::-1], inp)
+
+
 def run(tier, seed=0, shard=(0, 1)):
     max_boxes = 2 if tier == 'quick' else 3
     x, y = monoidal.Ty('x'), monoidal.Ty('y')
@@ -144,6 +158,8 @@ def run(tier, seed=0, shard=(0, 1)):
         semantic(rep)
     for d in D[:3] + R[:3]:
         rep.sample(repr(d))
+    if shard[0] == 3 % shard[1]:
+        catalogue_daggers(rep)
     return rep.result()
 
 
